@@ -53,6 +53,41 @@ class ListWorkload(Workload):
         return list(out)
 
 
+class TraceWorkload(Workload):
+    """the same arrivals handed to the simulator through the REAL trace replayer: an in-memory WorkloadReader whose
+    batches are replayed by WorkloadTrace (via WorkloadReader.get_workload), as `eudoxia run -w` does. Arrival times are
+    written in the middle of the tick before the intended one (tick t >= 1: (t - 0.5) / tps; tick 0: 0.0), safely away
+    from the float boundaries of the tick mapping, so the replayer delivers in exactly the intended tick. A pipeline that
+    shares its tick with its predecessor in the file is sometimes written with an EARLIER time than its predecessor (the
+    file is then not in arrival order): batches are handed out in file order, so it is still delivered in that tick."""
+
+    def __init__(self, world, arrivals, tps):
+        from eudoxia.workload.workload import PipelineArrival, WorkloadReader
+        self.world = world
+        self.delivered = []
+        batches, prev_t, prev_w = [], None, None
+        for t, k in arrivals:
+            wt = 0.0 if t == 0 else (t - 0.5) / tps
+            if prev_t == t and (k * 7 + t) % 5 == 0:
+                wt = max(0.0, (t - 1.5 - (k % 4))) / tps        # earlier than the predecessor, delivered with it
+            if batches and wt == prev_w:
+                batches[-1].append(PipelineArrival(wt, world.pipes[k]))
+            else:
+                batches.append([PipelineArrival(wt, world.pipes[k])])
+            prev_t, prev_w = t, wt
+
+        class Reader(WorkloadReader):
+            def batch_by_arrival(self_):
+                for b in batches:
+                    yield list(b)
+        self.real = Reader().get_workload(tps)
+
+    def run_one_tick(self):
+        out = self.real.run_one_tick()
+        self.delivered.append([self.world.pipes.index(p) for p in out])
+        return out
+
+
 class SimRun:
     def __init__(self, recipe):
         self.r = recipe
@@ -65,7 +100,7 @@ class SimRun:
     def run(self):
         r = self.r
         w = self.w = World(r['pipes'], r['segs'])
-        wl = self.wl = ListWorkload(w, r['arrivals'])
+        wl = self.wl = (TraceWorkload(w, r['arrivals'], r['tps']) if r.get('via_trace') else ListWorkload(w, r['arrivals']))
         name = r['algo']
         key = STARTER_NAME if name == 'starter' else name
         if name == 'starter':
